@@ -1384,7 +1384,7 @@ mod c08 {
     fn c08_d6_expire_fabric_already_gone() {
         let x = run_expire(false, false, false);
         kani::assume(x.before.armed && x.before.fab_idx != 0);
-        kani::cover!(x.result == Err(ErrorCode::NotFound) && x.after == x.before, "D6 witness: Err(NotFound), fail-safe still armed exactly as before");
+        // (on the original tree the witness `x.result == Err(NotFound) && x.after == x.before` was satisfiable: D6, fixed in /repo 63068c8)
         kani::cover!(x.result.is_ok(), "expiry completes");
         check_expired(&x);
     }
@@ -1494,10 +1494,8 @@ mod c07 {
     #[kani::stub(crate::transport::session::Sessions::remove_for_fabric, crate::transport::session::verif_kani::c07::ghost_remove_for_fabric)]
     fn c07_d7_expire_leaves_no_session_of_removed_fabric() {
         let x = run_expire(false, true, false);
-        kani::cover!(
-            matches!(x.result, Ok(Some(f)) if x.sess_after == Some((2, f, false))),
-            "D7 witness: fabric reported removed, a CASE session on its index is still live"
-        );
+        // (on the original tree the witness "fabric reported removed, a CASE session on its index is still live" was
+        // satisfiable: D7, fixed in /repo 27ff100)
         if let Ok(Some(f)) = x.result {
             // (ids are unique and the probe id is arbitrary: this is "for every session")
             if let Some((_, fab, expired)) = x.sess_after {
